@@ -182,5 +182,38 @@ def pipelined_file_case(nops):
                 {"operations": nops, "kinds": PIPE_OPS, "rejected write": [None, 1, 2], "error codes": [4, 3, 1]})
 
 
+def many_writes_case():
+    """more than 100 pipelined writes outstanding make SFTPFile._write read their statuses; with a synchronous request
+    somewhere in between, some of those statuses have been read already"""
+    def fn(ctx):
+        at = ctx.choice("stat()-after-write-number", [None, 1, 60, 100, 101, 102])
+        fail = ctx.choice("rejected-write", [None, 1, 70, 103])
+        link = S.Link({}, Faults("write", fail or 0, 4))
+        outcome = "returned"
+        n = 104
+        try:
+            f = link.client.open("/f", "w", bufsize=0)
+            f.set_pipelined(True)
+            for i in range(1, n + 1):
+                f.write(bytes([i]))
+                if at == i:
+                    f.stat()
+            f.close()
+        except S.WouldBlockForever:
+            outcome = "blocked"
+        except (IOError, OSError, EOFError):
+            outcome = "raised"
+        rejected = bool(fail)
+        ctx.prove(outcome != "blocked", "never-waits-for-a-response-that-was-never-sent")
+        if outcome == "returned":
+            ctx.prove(not rejected, "a-rejected-pipelined-write-surfaces-no-later-than-close")
+            if not rejected:
+                ctx.prove(bytes(link.files["/f"].data) == bytes(range(1, n + 1)), "closed-without-error=>file-holds-exactly-what-was-written")
+        else:
+            ctx.prove(rejected, "raises-only-when-something-failed")
+    return Case("pipelined-file-104-writes", fn, ["closed-without-error=>file-holds-exactly-what-was-written"],
+                {"writes": 104, "synchronous request after write": [None, 1, 60, 100, 101, 102], "rejected write": [None, 1, 70, 103]})
+
+
 def cases(tier):
-    return [put_case(), get_case(), pipelined_file_case(3 if tier == "quick" else 4)]
+    return [put_case(), get_case(), pipelined_file_case(3 if tier == "quick" else 4), many_writes_case()]
